@@ -342,7 +342,7 @@ def run_case(ctx, case):
         wit["ops_so_far"] = case["ops"][:step]
         ctx.violation(key, what, wit)
 
-    def observe_all():
+    def observe_all(acting=False):
         nonlocal interesting
         exp = expected_obs(m)
         cache = read_cache_file(path)
@@ -356,10 +356,12 @@ def run_case(ctx, case):
             viol("long-lived-session-differs", "a long-lived session disagrees with the model",
                  {"problems": bad[:4], "cache_ids": sorted(cache) if cache is not None else None})
             return False
-        # the acting session is a long-lived session too
-        obs_A = observe_session(A, ids)
-        ctx.monitor("long_lived_session")
-        bad = compare_obs(obs_A, exp)
+        # the acting session is a long-lived session too; it is looked at only at the end of its life (before a
+        # restart, at the end of the history): looking warms its cache, and a cold acting session is a case of its own
+        obs_A = observe_session(A, ids) if acting else exp
+        if acting:
+            ctx.monitor("long_lived_session")
+        bad = compare_obs(obs_A, exp) if acting else None
         if bad:
             viol("long-lived-session-differs", "the acting session disagrees with the model",
                  {"problems": bad[:4], "session": "acting", "cache_ids": sorted(cache) if cache is not None else None})
@@ -443,7 +445,8 @@ def run_case(ctx, case):
         return True
 
     ok = observe_all()
-    for op in case["ops"]:
+    nops = len(case["ops"])
+    for opi, op in enumerate(case["ops"]):
         if not ok:
             break
         step += 1
@@ -513,7 +516,7 @@ def run_case(ctx, case):
                 os.remove(os.path.join(path, model.CACHE_FILE))
             except FileNotFoundError:
                 pass
-        ok = observe_all()
+        ok = observe_all(acting=(opi + 1 == nops or case["ops"][opi + 1][0] == "restart"))
     ctx.count("steps", step)
     if interesting:
         ctx.distinct("nontrivial", case["ops"])
